@@ -54,6 +54,10 @@ pub trait SocketHandler {
             final(self).sent() == old(self).sent();
 }
 
+pub open spec fn spec_be16(hi: u8, lo: u8) -> int { hi as int * 256 + lo as int }
+// `u16::from_be_bytes([hi, lo])` (std; its array length is a const expression Verus cannot name in an assume_specification)
+#[verifier::external_body]
+pub fn verif_be16(hi: u8, lo: u8) -> (r: u16) ensures r as int == spec_be16(hi, lo) { unimplemented!() }
 // nom's result shape and the parser as a function of the bytes (parser.rs; K-ppv2 proves what it accepts)
 pub enum Needed { Unknown }
 pub struct NomError<'a> { pub input: &'a [u8] }
@@ -64,7 +68,9 @@ pub uninterp spec fn spec_parse(b: Seq<u8>) -> Parsed;
 #[verifier::external_body]
 pub fn parse_v2_header<'a>(i: &'a [u8]) -> (r: Result<(&'a [u8], HeaderV2), Err<NomError<'a>>>)
     ensures match r {
-        Ok((rest, h)) => spec_parse(i@) matches Parsed::Complete { consumed, addr } && consumed <= i@.len() && rest@ == i@.subrange(consumed as int, i@.len() as int) && h.addr == addr,
+        // (a complete header ends exactly where its length field says: parse_v2_header's own postcondition assert; K-ppv2)
+        Ok((rest, h)) => spec_parse(i@) matches Parsed::Complete { consumed, addr } && consumed <= i@.len() && rest@ == i@.subrange(consumed as int, i@.len() as int) && h.addr == addr
+            && i@.len() >= 16 && consumed == 16 + spec_be16(i@[14], i@[15]),
         Err(Err::Incomplete(_)) => spec_parse(i@) is Incomplete,
         Err(_) => spec_parse(i@) is Invalid,
     }
@@ -117,11 +123,13 @@ pub fn verif_session_address(a: &Option<ProxyAddr>) -> Option<SocketAddr> { unim
 
 impl<Front: SocketHandler> ExpectProxyProtocol<Front> {
     pub open spec fn stage(&self) -> int { match self.header_len { HeaderLen::V4 => 28, HeaderLen::V6 => 52, HeaderLen::Unix => 232 } }
-    pub open spec fn wf(&self) -> bool { self.index <= self.stage() }
+    // the cursor stays within the current stage and, once the fixed 16-byte part is in, within the declared header end
+    pub open spec fn wf(&self) -> bool { self.index <= self.stage() && (self.index > 16 ==> self.index <= 16 + spec_be16(self.frontend_buffer@[14], self.frontend_buffer@[15])) }
     pub open spec fn acc(&self) -> Seq<u8> { self.frontend_buffer@.subrange(0, self.index as int) }
 
     //@fn lib/src/protocol/proxy_protocol/expect.rs ExpectProxyProtocol::readable
     //@  ret r
+    //@  substall "u16::from_be_bytes([self.frontend_buffer[14], self.frontend_buffer[15]])" => "verif_be16(self.frontend_buffer[14], self.frontend_buffer[15])"
     //@  subst "&mut self.frontend_buffer[self.index..total_len]" => "verif_window_mut(&mut self.frontend_buffer, self.index, total_len)"
     //@  subst "&self.frontend_buffer[..self.index]" => "verif_prefix(&self.frontend_buffer, self.index)"
     //@  requires
@@ -133,6 +141,7 @@ impl<Front: SocketHandler> ExpectProxyProtocol<Front> {
     //@    final(self).frontend.sent() == old(self).frontend.sent(),                                    // [nothing-is-forwarded-in-this-state]
     //@    r == SessionResult::Upgrade ==> (spec_parse(final(self).acc()) matches Parsed::Complete { consumed, addr } && final(self).addresses == Some(addr)), // [upgrade-only-on-a-complete-header-with-exactly-its-addresses]
     //@    spec_parse(final(self).acc()) is Invalid ==> r == SessionResult::Close,                      // [a-malformed-header-closes]
+    //@    r == SessionResult::Upgrade ==> (spec_parse(final(self).acc()) matches Parsed::Complete { consumed, addr } && consumed == final(self).index), // [never-reads-past-the-end-of-the-header]
     //@    spec_parse(final(self).acc()) is Incomplete && final(self).index == 232 ==> r == SessionResult::Close, // [an-oversized-header-closes]
     //@end
 
